@@ -439,9 +439,9 @@ PROPS = {
         "timeout": {"quick": 900, "thorough": 3000},
     },
     "C13": {
-        "lean": ["Knut.Properties.C13"],
+        "lean": ["Knut.Properties.C13", "Knut.Properties.C13Text"],
         "level": "proof",
-        "claim": "PARTIAL proof + full correspondence, all eleven importers. Lean row models (Model/Import/*.lean) from the records as encoding/csv / encoding/json decoded them "
+        "claim": "Proof (row level and text level, all eleven importers; acceptance of the carried balance assertions of revolut2 / revolut / interactivebrokers stays a hypothesis) + full correspondence. Lean row models (Model/Import/*.lean) from the records as encoding/csv / encoding/json decoded them "
                  "to the directives added to the journal.Builder (explicit error / panic outcomes), printed by the model of journal.Print (C09); a specification-side reader per format "
                  "(Spec/ImportItems.lean: which records are booking rows, their date / currency / signed amount on the import account, carried balances and prices) and the predicate "
                  "Faithful (Spec/ImportSpec.lean). Proved for ALL record lists and field contents, for all eleven importers (swisscard2, swisscard, supercard, cumulus, postfinance, revolut2, "
@@ -453,9 +453,7 @@ PROPS = {
                  "predicate is complete and sound for Faithful (C13_monitor_complete, C13_monitor_sound, C13_matchesB_iff). C13_description_has_no_quote + C13_replaceQuotes_idempotent (transaction.Builder.Build stores a quote-free description, so the day's transactions are sorted by the "
                  "text that is printed; the printer's own replacement is idle). Kernel-checked witnesses: wise_conversion_two_transactions, swissquote_forex_pair_one_transaction "
                  "(by-design deviations), swissquote_sale_without_proceeds_is_a_sale (repaired behaviour). "
-                 "NOT mechanised: the text-level clause (output parses, is accepted and re-printed unchanged once the accounts are opened; stays valid for arbitrary free text) - it "
-                 "needs print-then-parse lemmas of the parser model; decided on every run on the REAL output by knut's own parser, the Lean parser model, `knut print` on opens + output "
-                 "(accepted, byte-identical), over free text with quotes, separators, newlines, control characters and Unicode. Tie: `knut import <x>` as a subprocess on generated statements of every format (and the "
+                 "TEXT LEVEL, proved for all eleven importers and all statements (Properties/C13Text.lean, on the models: render = journal.Print of the importer's builder, loadText = parser model + elaboration, printFile = knut print on one file): C13_<importer>_printable - every emitted directive is PrintableDir, the hypothesis of the C09 round trip: valid names (C13_<importer>_wellformed), dates in the range of time.Parse (years 0000..9999, derived from the model of time.Parse for the five layouts), amounts decimal rationals (derived from the model of decimal.NewFromString, closed under the negations / sums / roundings the importers do), transactions built by transaction.Builder.Build whose quote replacement makes the description quote-free - nothing is assumed about free text; C13_text_parses - the emitted text parses (C13_text_parser_accepts) and loads to exactly the directives the importer built, in the order journal.Print writes them (a permutation of the order they were added in), and printing the reloaded journal gives the same text; C13_text_reprinted_with_opens - the file `one open per account dated before the first directive, blank line, output` is reproduced byte for byte by knut print whenever the checker accepts it; C13_text_accepted_with_opens / C13_text_valid - and the checker does accept it when the output consists of transactions and prices (C13_<importer>_tx_or_price: swisscard2, swisscard, supercard, cumulus, postfinance, wise, viac, swissquote) on accounts each opened once; C13_text_valid_prices_only (viac). OPEN: for revolut2, revolut, interactivebrokers the output carries the statement's balance assertions, whose acceptance depends on the statement (balances consistent from a zero opening balance): acceptance stays a hypothesis there; the statement decoders (encoding/csv, json, charmap) are outside the models. The same clauses are also decided on every run on the REAL output by knut's own parser, the Lean parser model, `knut print` on opens + output (accepted, byte-identical), over free text with quotes, separators, newlines, control characters and Unicode. Tie: `knut import <x>` as a subprocess on generated statements of every format (and the "
                  "repository's eleven example inputs), stdout compared byte for byte with the Lean row model + printer for all eleven importers, also on a malformed stream (mutated "
                  "fields, structure, bytes, flags: same ok / error / panic outcome); the library functions the models rely on (decimal.NewFromString, time.Parse x 5 layouts, "
                  "strings.TrimSpace/Fields/Trim/Replacer, the importers' regular expressions, registry name checks) are compared with Go on structured and mutated strings.",
@@ -464,7 +462,7 @@ PROPS = {
                 "encoding (a statement that is not valid UTF-8 yields descriptions the journal syntax cannot carry). Known findings (KNOWN-FINDING lines, exit 0; by-design deviations from the literal wording): "
                 "C13-wise-conversion-two-transactions, C13-swissquote-forex-pair-one-transaction, C13-interactivebrokers-rounds-to-cents. Fixed in /repo and modelled as fixed (a return of the "
                 "behaviour is a VIOLATION): C13-postfinance-debug-line-on-stdout (3b9fb06), C13-swissquote-sale-without-proceeds-booked-as-purchase (c9fcfe1), "
-                "C13-quote-replaced-after-sorting (7934e0c). The printer model's String.replace being the identity on a quote-free description is not provable in core Lean.",
+                "C13-quote-replaced-after-sorting (7934e0c). The printer's quote replacement is modelled character-wise (JournalPrinter.descText) and proved to be the identity on a quote-free description (descText_id).",
         "rule": "streams: stmt (per importer: 0-60 rows, dates over several years and days with several rows, debits and credits, zero amounts, amounts with thousands separators / trailing zeros / "
                 "up to 8 decimals / leading-dot / exponent literals, several currencies incl. non-ASCII commodity names, fees, exchange rows, forex pairs, trades, dividends with withholding, "
                 "pending / cancelled / ignored rows, balances consistent from a zero opening balance, free text from plain / Latin-1 / Unicode / quotes / separators / newlines / control characters, "
